@@ -234,28 +234,68 @@ def run(run, P):
             return None
         ctx = solve(f, Env(), on_event, None, keys, R, key_fn=lambda e: tuple(e.intf(a)[:2] for a in sel_list))
         run.stats['codec_solver_steps'] += ctx.steps
-    # ---- (4) the decoder's option-number bound as folded
+    # ---- (4) the decoder's option-number bound as folded: decided by enumeration, whatever the spelling of the comparison
+    # (`*max_opt + delta > K`, `delta > K - *max_opt`, ...): the condition separates exactly the pairs with max_opt + delta > 65535
     if P.has('next_option_safe'):
         f = P.func('next_option_safe')
         found = False
+
+        def role(t):
+            t = strip(t)
+            if isinstance(t, dict) and t.get('k') == 'un' and t.get('op') == '*' and isinstance(strip(t.get('e')), dict) and strip(t['e']).get('k') == 'var' \
+               and strip(t['e']).get('pi') is not None:
+                return 'M'
+            if isinstance(t, dict) and t.get('k') == 'mem' and t.get('f') == 'delta':
+                return 'D'
+            return None
+
+        def ev4(t, env):
+            t = strip(t)
+            if role(t):
+                return env[role(t)]
+            c = const_int(t)
+            if c is not None:
+                return c
+            if isinstance(t, dict) and t.get('k') == 'bin':
+                a, b2 = ev4(t['l'], env), ev4(t['r'], env)
+                op = t['op']
+                if op in ('+', '-'):
+                    return a + b2 if op == '+' else a - b2
+                if op in ('<', '>', '<=', '>=', '==', '!='):
+                    return int({'<': a < b2, '>': a > b2, '<=': a <= b2, '>=': a >= b2, '==': a == b2, '!=': a != b2}[op])
+            raise ValueError(short(t)[:40])
         for b in f['blocks']:
             t = b.get('term')
             if not t or t.get('cond') is None:
                 continue
-            c = strip(t['cond'])
-            if isinstance(c, dict) and c.get('k') == 'bin' and c.get('op') in ('>', '>=') and strip(c['l']).get('k') == 'bin' and strip(c['l']).get('op') == '+':
-                K = const_int(c['r'])
-                if K is None:
+            for c in walk(t['cond']):
+                if not (isinstance(c, dict) and c.get('k') == 'bin' and c.get('op') in ('>', '>=', '<', '<=')):
+                    continue
+                roles = set(role(x) for x in walk(c) if isinstance(x, dict) and role(x))
+                if roles != {'M', 'D'}:
+                    continue
+                try:
+                    base = ev4(c, {'M': 0, 'D': 0})
+                    bad = None
+                    for M in (0, 1, 12, 269, 65000, 65534, 65535):
+                        for D in (0, 1, 13, 268, 269, 535, 65535 - M - 1, 65535 - M, 65535 - M + 1, 65535):
+                            if D < 0:
+                                continue
+                            got = ev4(c, {'M': M, 'D': D})
+                            if (got == base) != (M + D <= 65535) and bad is None:
+                                bad = (M, D, got != base)
+                except ValueError:
                     continue
                 found = True
-                bound = K if c['op'] == '>' else K - 1
-                run.instance('R-CODEC-TAB', 'next_option_safe: running option number bounded by %d (as folded in this unit)' % bound)
-                ok = bound == 65535
+                run.instance('R-CODEC-TAB', 'next_option_safe: `%s` separates exactly the running option numbers above 65535 (as folded in this unit)' % short(c)[:60])
+                ok = bad is None
                 run.oblige('R-CODEC-TAB', ok, 'next_option_safe:max-opt')
                 if not ok:
                     run.violation('R-CODEC-TAB', 'next_option_safe', t['loc'], 'max-option-number',
-                                  'the decoder rejects option numbers above %d (the constant the compiler folded in this unit) while the builder accepts every '
-                                  '16-bit option number up to 65535: a message the API builds is refused by the parser' % bound)
+                                  'with the running option number at %d and a delta of %d the decoder\'s bound test `%s` %s the option (number %d) although the builder accepts '
+                                  'exactly the 16-bit option numbers up to 65535 (constants as the compiler folded them in this unit): %s'
+                                  % (bad[0], bad[1], short(c)[:60], 'rejects' if bad[2] else 'accepts', bad[0] + bad[1],
+                                     'a message the API builds is refused by the parser' if bad[2] else 'the number wraps'))
         run.require(found, 'R-CODEC-TAB: bound comparison on the running option number not found in next_option_safe()')
     elif not run.fixture_mode:
         run.require(False, 'anchor function next_option_safe() not found')
